@@ -180,6 +180,35 @@ def run(R):
             "whether the replacement accepts attributes is decided by trying to set one (AttributeError and TypeError mean no)",
             "_maybe_wrap_new no longer tries to set an attribute on the replacement: a callable that has a __dict__ but refuses new attributes is "
             "not wrapped, attaching .asynq fails inside __enter__ after the standard patcher installed it, and the original is never restored")
+    # ... and every callable replacement that is installed as it is went through that probe (or is a function / classmethod /
+    # staticmethod, which get their own arm): a shortcut such as "has .asynq already, nothing to adapt" lets through bound async
+    # methods of compiled binders, which have no __dict__ - attaching .asynq then fails inside __enter__, after the target was patched
+    probe_nodes = []
+    for t_ in probes:
+        for st_ in t_.body:
+            probe_nodes += [x for x in mcfg.nodes if x.stmt is st_ or (x.ast is not None and any(x.ast is y for y in ast.walk(st_)))]
+    for c_, tg_, kind_ in R.res.callees(mw):
+        if kind_ == "resolved" and any(any(t_ is y for y in ast.walk(t__.node)) for t__ in tg_ for t_ in probes):
+            probe_nodes += [x for x in mcfg.nodes if c_ in kit.node_calls(x)]
+
+    def shortcut_ok(e):
+        nd = mcfg.nodes[e.src]
+        if nd.kind != "test":
+            return False
+        k, s_, pos = q.atom_test(nd.ast)
+        if k == "is" and isinstance(s_, tuple) and p0 in s_ and any("DEFAULT" in x for x in s_):
+            return e.label == ("T" if pos else "F")
+        if k == "call" and s_ == "callable":
+            return e.label == ("F" if pos else "T")
+        return False
+    if probes:
+        for rn in keep_nc:
+            p = mcfg.find_path([mcfg.entry], [rn], N, cut_nodes=probe_nodes, keep_edge=lambda e: not shortcut_ok(e))
+            R.check(p is None, "C19.WRAP-NEW", mw.qualname + ":probed:" + str(rn.ast.lineno - mw.node.lineno), R.site(mw, rn.ast),
+                    "a callable replacement is returned unchanged only after the attribute probe succeeded",
+                    "a callable replacement can be returned unchanged without the attribute probe: one that refuses new attributes (a bound method of a "
+                    "compiled binder, an object with __slots__) reaches __enter__ unwrapped, attaching .asynq raises after the standard patcher "
+                    "installed it, and the original is never restored", mcfg.fmt_path(p) if p else None)
     R.check(okw, "C19.WRAP-NEW", mw.qualname + ":wrapper", R.site(mw), "the wrapper for attribute-less callables forwards (*args, **kwargs)", "the wrapper for attribute-less callables does not forward its arguments")
     # the pair decorator keeps staticmethod/classmethod wrappers and rebinds sync_fn per access (shared with C09)
     pd = repo.cls("decorators.AsyncAndSyncPairDecorator")
@@ -261,6 +290,16 @@ def run(R):
     ours_calls = [c for c in q.calls(cp.node) if q.call_name(c) == "_PatchAsync"]
     R.check(any([q.src(a) for a in c.args] == std_fields for c in ours_calls), "C19.DROP-IN", cp.qualname, R.site(cp),
             "copy() passes the same fields as unittest.mock._patch.copy", "copy() does not pass the fields of the installed _patch.copy (%s)" % std_fields)
+    # every copy is a new patcher: the standard library's class decorator and nested activations rely on copy() for independent
+    # saved-original slots; a shared patcher has its saved original overwritten by the inner activation and then deleted
+    for r_ in [x for x in q.scope_nodes(cp.node) if isinstance(x, ast.Return)]:
+        v_ = r_.value
+        srcs_ = [v_] if not isinstance(v_, ast.Name) else [vv for kk, vv in common.assigned_values(cp.node, v_.id)]
+        fresh = bool(srcs_) and all(isinstance(x, ast.Call) and q.call_name(x) == "_PatchAsync" for x in srcs_)
+        R.check(fresh, "C19.DROP-IN", cp.qualname + ":fresh:" + q.stmt_key(r_)[:30], R.site(cp, r_),
+                "copy() returns a newly built _PatchAsync", "copy() can return `%s`, not a new patcher: activations that should be independent (a decorated class whose "
+                "test methods call each other, nested use of one patch object) share one saved original - the outer __exit__ fails and the target stays replaced"
+                % (q.src(v_)[:30] if v_ is not None else None))
     extra = sorted(q.src(n.targets[0]) for n in q.scope_nodes(cp.node) if isinstance(n, ast.Assign) and q.src(n.targets[0]).startswith("patcher."))
     std_extra = sorted(q.src(n.targets[0]) for n in ast.walk(std["_patch.copy"]) if isinstance(n, ast.Assign) and q.src(n.targets[0]).startswith("patcher."))
     R.check(extra == std_extra, "C19.DROP-IN", cp.qualname + ":extra", R.site(cp), "copy() carries over %s like the standard library" % std_extra, "copy() sets %s, the standard library %s" % (extra, std_extra))
